@@ -147,6 +147,7 @@ for tn,tname,ml in [(1,"typename",4),(2,"separator",5),(3,"unknown-number",5),(4
     c05.append(job(f"line-{tname}","auparse","VH_LineTotal",["C05/"],{"maxlen":ml,"template":tn},Q,bounds=f"ParseLogLine on a full line whose {tname} part is every ASCII string of 0..{ml} symbolic bytes (type=<..> msg=audit(1.000:1): a=b)"))
 c05.append(job("header-window-3","auparse","VH_HeaderBad",["C05/"],{"mode":5,"window":3},Q,bounds="Parse/ParseLogLine on \"audit\" + 0..3 symbolic ASCII bytes + header remainder (delimiters swapped, doubled, missing)"))
 c05.append(job("header-overwrite-2","auparse","VH_HeaderBad",["C05/"],{"mode":6},Q,bounds="a well-formed line with any two header positions overwritten by symbolic ASCII bytes"))
+c05.append(job("body-avc-middle","auparse","VH_BodyTotal",["C05/"],{"maxlen":4,"type":10,"avc":1},Q,bounds="AVC record \"avc:  denied  <..>for  pid=1 ...\" with the part where the permission set belongs every ASCII string of 0..4 symbolic bytes"))
 c05.append(job("bare-header","auparse","VH_BodyTotal",["C05/"],{"maxlen":4,"type":0,"bare":1},Q,bounds="Parse(SYSCALL, \"audit(1.000:1)\" + tail) for every ASCII tail of 0..4 symbolic bytes (no separator after the header)"))
 c05.append(job("body-anytype","auparse","VH_BodyTotal",["C05/"],{"maxlen":4,"type":-1},T,bounds="record type symbolic (16 bit), body 0..4 symbolic ASCII bytes"))
 KEYS=["saddr","argc","a0","a1","exit","arch","syscall","sig","subj","obj","key","success","res","auid","old-auid","ses","cwd","exe","proctitle","cmd","data","name","acct","msg"]
@@ -225,6 +226,7 @@ for i,k in enumerate(FC):
     c12.append(job(f"field-{k}-long1100","auparse","VH_EncodedField",["C12/"],{"case":i,"len":1,"long":1100},T,bounds=f"{k}: value of 1100 bytes (last byte symbolic)"))
 for ci,cn in [(8,"cwd-usercmd")]:
     c12.append(job(f"field-{cn}-len2","auparse","VH_EncodedField",["C12/"],{"case":ci,"len":2},Q,bounds=f"{cn}: the key in another record type that carries it, value of 2 symbolic bytes over 0x01..0xFF, quoted or hex"))
+c12.append(job("execve-12-args","auparse","VH_Execve",["C12/"],{"argc":12,"len":2,"symlast":1},Q,bounds="EXECVE argc=12: a0..a10 concrete, a11 of 2 symbolic bytes over 0x01..0xFF (quoted or hex)"))
 c12.append(job("execve-2-long","auparse","VH_Execve",["C12/"],{"argc":2,"len":2,"long":300},Q,bounds="EXECVE argc=2, second argument 300 bytes (last 2 symbolic)"))
 c12.append(job("saddr-unix-len5","auparse","VH_Saddr",["C12/"],{"family":2,"len":5},T,bounds="unix path of 5 symbolic bytes"))
 for n in (1,2,3,6):
@@ -294,7 +296,7 @@ C["C06"]={"jobs":c06,"assumptions":RULE_ASSUME+["UAPI constants and struct offse
    "the Rule struct is built directly (flag text parsing is C07/C14's subject)","the top 16 bits of the last mask word are not constrained for the all-syscalls pattern (kernel syscall-class bits)"],
    "outside":["strings longer than 3 symbolic bytes (length limits are checked by C13's concrete long strings)","user/group names other than root"]}
 
-SHAPES=["aF","aFF","Fa","aS","aSk","aFk","Ak","aC","aCF","akk","aSS","w","wp","wk","wpk","pw","kw","D","Dk","F","S","C","aAF","aw","Dw","DaF","wF","","#aF","a#F","aF#","w#pk","wp#","D#","#D","aS#k","aSp","paS","aFp","Dp","pD","p","pk","Sp","Cp"]
+SHAPES=["aF","aFF","Fa","aS","aSk","aFk","Ak","aC","aCF","akk","aSS","w","wp","wk","wpk","pw","kw","D","Dk","F","S","C","aAF","aw","Dw","DaF","wF","","#aF","a#F","aF#","w#pk","wp#","D#","#D","aS#k","aSp","paS","aFp","Dp","pD","p","pk","Sp","Cp","wpp","pwp","wppk"]
 c14=[]
 for i,sh in enumerate(SHAPES):
     hole = 4 if sh.count("F")+sh.count("C")<=1 else 3
